@@ -15,6 +15,9 @@ type batchTable struct {
 // newEntity creates a new entity.
 // Returns the entity and its bit.mask.
 func (w *World) newEntity(ids []ID, relations []relationID) (Entity, *bitMask) {
+	if traceEnabled {
+		defer w.traceBegin("New", Entity{}, ids, nil, relations, nil, 1).end()
+	}
 	w.checkLocked()
 	s := &w.storage
 	mask := bitMask{}
@@ -37,6 +40,9 @@ func (w *World) newEntity(ids []ID, relations []relationID) (Entity, *bitMask) {
 // newEntities creates multiple new entities.
 // Returns the table containing the entities, and their start index in the table.
 func (w *World) newEntities(count int, ids []ID, relations []relationID) (tableID, int) {
+	if traceEnabled {
+		defer w.traceBegin("NewBatch", Entity{}, ids, nil, relations, nil, count).end()
+	}
 	mask := bitMask{}
 	newTable, _ := w.storage.findOrCreateTableAdd(&w.storage.tables[0], ids, relations, &mask)
 	startIdx := newTable.Len()
@@ -48,6 +54,9 @@ func (w *World) newEntities(count int, ids []ID, relations []relationID) (tableI
 // add components to an entity.
 // Returns the entity's old and new bit-mask.
 func (w *World) add(entity Entity, add []ID, relations []relationID) (*bitMask, *bitMask) {
+	if traceEnabled {
+		defer w.traceBegin("Add", entity, add, nil, relations, nil, 1).end()
+	}
 	w.checkLocked()
 
 	if !w.Alive(entity) {
@@ -90,6 +99,9 @@ func (w *World) add(entity Entity, add []ID, relations []relationID) (*bitMask, 
 
 // remove components from an entity.
 func (w *World) remove(entity Entity, rem []ID) {
+	if traceEnabled {
+		defer w.traceBegin("Remove", entity, nil, rem, nil, nil, 1).end()
+	}
 	w.checkLocked()
 
 	if !w.Alive(entity) {
@@ -145,6 +157,9 @@ func (w *World) remove(entity Entity, rem []ID) {
 // remove components on an entity.
 // Returns the entity's old and new bit-mask.
 func (w *World) exchange(entity Entity, add []ID, rem []ID, relations []relationID) (*bitMask, *bitMask) {
+	if traceEnabled {
+		defer w.traceBegin("Exchange", entity, add, rem, relations, nil, 1).end()
+	}
 	w.checkLocked()
 
 	if !w.Alive(entity) {
@@ -208,6 +223,9 @@ func (w *World) exchange(entity Entity, add []ID, rem []ID, relations []relation
 //nolint:gocyclo
 func (w *World) exchangeBatch(batch *Batch, add []ID, rem []ID,
 	relations []relationID, fn func(table tableID, start, len uint32)) {
+	if traceEnabled {
+		defer w.traceBegin("ExchangeBatch", Entity{}, add, rem, relations, batch, 0).end()
+	}
 	w.checkLocked()
 
 	if len(add) == 0 && len(rem) == 0 {
@@ -363,6 +381,9 @@ func (w *World) exchangeTable(oldTableID, newTableID tableID, relations []relati
 
 // setRelations sets the target entities for an entity relations.
 func (w *World) setRelations(entity Entity, relations []relationID) {
+	if traceEnabled {
+		defer w.traceBegin("SetRel", entity, nil, nil, relations, nil, 1).end()
+	}
 	w.checkLocked()
 
 	if !w.storage.entityPool.Alive(entity) {
@@ -423,6 +444,9 @@ func (w *World) setRelations(entity Entity, relations []relationID) {
 
 // setRelationsBatch batch-changes entity relations.
 func (w *World) setRelationsBatch(batch *Batch, relations []relationID, fn func(table tableID, start, len int)) {
+	if traceEnabled {
+		defer w.traceBegin("SetRelBatch", Entity{}, nil, nil, relations, batch, 0).end()
+	}
 	w.checkLocked()
 
 	if len(relations) == 0 {
@@ -555,22 +579,34 @@ func (w *World) unregisterObserver(obs *Observer) {
 
 // lock the world and get the lock bit for later unlocking.
 func (w *World) lock() uint8 {
+	if traceEnabled {
+		defer w.traceLock(1)
+	}
 	return w.storage.locks.Lock()
 }
 
 // unlock unlocks the given lock bit.
 func (w *World) unlock(l uint8) {
 	w.storage.locks.Unlock(l)
+	if traceEnabled {
+		w.traceLock(-1)
+	}
 }
 
 // lockSafe locks the world and get the lock bit for later unlocking.
 func (w *World) lockSafe() uint8 {
+	if traceEnabled {
+		defer w.traceLock(1)
+	}
 	return w.storage.locks.LockSafe()
 }
 
 // unlockSafe unlocks the given lock bit.
 func (w *World) unlockSafe(l uint8) {
 	w.storage.locks.UnlockSafe(l)
+	if traceEnabled {
+		w.traceLock(-1)
+	}
 }
 
 // checkLocked checks if the world is locked, and panics if so.
